@@ -4,7 +4,7 @@ from __future__ import annotations
 import ast
 
 from ..core import (AnalysisError, FuncInfo, Project, attr_chain, enclosing, expand, guards_of, local_defs, term,
-                    unparse)
+                    unparse, analysis_functions)
 from ..patterns import consume_rule, extract_header_patterns
 
 SC = "codelimit.common.Scanner"
@@ -13,8 +13,8 @@ MUTATORS = ("append", "extend", "insert", "update", "add", "pop", "remove", "cle
             "popitem", "discard", "__setitem__")
 
 
-def analysis_functions(prj: Project) -> list[FuncInfo]:
-    return [prj.funcs[q] for q in sorted(prj.callgraph.reachable(ENTRY))]
+def analysis_path(prj: Project) -> list[FuncInfo]:
+    return analysis_functions(prj, ENTRY)
 
 
 # ----------------------------------------------------------------------------
@@ -109,6 +109,10 @@ def rule_R1(ctx, prj, fns):
                 it, body, kind = n.iter, n.body, "for"
             elif isinstance(n, (ast.ListComp, ast.GeneratorExp)) and any(_is_set_expr(fi, prj, g.iter, known) for g in n.generators):
                 it, kind = n.generators[0].iter, "comp"
+            elif isinstance(n, ast.SetComp) and any(_is_set_expr(fi, prj, g.iter, known) for g in n.generators):
+                seen += 1
+                ctx.ok("R1", fi.site(n), f"{fi.local}/set comprehension over {unparse(n.generators[0].iter)[:40]}: the result is a set again")
+                continue
             elif isinstance(n, ast.Call) and attr_chain(n.func) in ("list", "tuple", "next", "iter") and n.args and _is_set_expr(fi, prj, n.args[0], known):
                 it, kind = n.args[0], attr_chain(n.func)
             elif isinstance(n, ast.Call) and isinstance(n.func, ast.Attribute) and n.func.attr == "pop" and not n.args \
@@ -153,15 +157,17 @@ def rule_R2(ctx, prj):
                    "restriction to open groups): no break/return on an accepting transition, and a second accepting "
                    "transition raises instead of being chosen by list order", floor=1)
     r = consume_rule(prj)
-    if r.first_match:
-        ctx.viol("R2", "Pattern.consume/first-match", r.fi.site(r.loop),
-                 "the loop over the state's transitions leaves at an accepting transition: which transition is taken then "
-                 "depends on the order of the transition list, which nfa_to_dfa derives from set iteration (hash seed)")
-    elif not r.raises_on_second:
-        ctx.viol("R2", "Pattern.consume/no-raise", r.fi.site(r.loop),
-                 "a second accepting transition is not rejected: the last one in list order silently wins")
+    site = r.fi.site(r.loop) if r.loop is not None else r.fi.site()
+    if r.order_dependent:
+        how = ("the first accepting transition in list order is taken" if r.first_match else
+               "the last accepting transition in list order silently wins" if r.last_match else "the outcome differs")
+        ctx.viol("R2", "Pattern.consume/first-match" if r.first_match else "Pattern.consume/no-raise" if r.last_match
+                 else "Pattern.consume/order-dependent", site,
+                 f"evaluating Pattern.consume on a state with two transitions, {how}: {r.order_dependent[0]}; the order of the "
+                 f"transition list is derived by nfa_to_dfa from set iteration (hash seed)")
     else:
-        ctx.ok("R2", r.fi.site(r.loop), "Pattern.consume: all transitions examined, a second accepting one raises")
+        ctx.ok("R2", site, f"Pattern.consume: the outcome of all {r.scenarios} two-transition scenarios (list order x open x accepting) "
+                           f"is independent of the list order" + ("; a second accepting transition raises" if r.raises_on_second else ""))
     return r
 
 
@@ -171,14 +177,22 @@ def rule_R3(ctx, prj, fns, r):
                    "constructed in the same function - never the automaton's shared predicate", floor=3)
     pred_base = prj.cls("codelimit.common.gsm.predicate.Predicate:Predicate")
     pred_classes = {c.qual for c in pred_base.all_subclasses()} | {pred_base.qual}
+    pattern_cls = r.fi.cls
     for fi in fns:
         for c in fi.calls():
             if not (isinstance(c.func, ast.Attribute) and c.func.attr in ("accept", "is_open", "reset")):
                 continue
             recv = c.func.value
             key = f"{fi.local}/{unparse(c)[:50]}"
-            if isinstance(recv, ast.Attribute) and isinstance(recv.value, ast.Name) and recv.value.id == "self" and fi.cls and fi.cls.qual in pred_classes:
-                ctx.ok("R3", fi.site(c), f"{key}: own sub-predicate")
+            if fi.cls is not None and fi.cls is pattern_cls:
+                # decided by evaluation of Pattern.consume below (whatever the shape of the code)
+                if r.copies_predicates:
+                    ctx.ok("R3", fi.site(c), f"{key}: in all {r.scenarios} evaluated scenarios of Pattern.consume the receiver is a per-pattern deep copy")
+                continue
+            if fi.cls and fi.cls.qual in pred_classes and (
+                    (isinstance(recv, ast.Name) and recv.id == "self") or
+                    (isinstance(recv, ast.Attribute) and isinstance(recv.value, ast.Name) and recv.value.id == "self")):
+                ctx.ok("R3", fi.site(c), f"{key}: the predicate itself / own sub-predicate")
                 continue
             if isinstance(recv, ast.Call) and isinstance(recv.func, ast.Name) and recv.func.id == "super":
                 ctx.ok("R3", fi.site(c), f"{key}: super()")
@@ -195,11 +209,29 @@ def rule_R3(ctx, prj, fns, r):
             if isinstance(recv, ast.Call) and _is_copy(prj, fi, recv):
                 ctx.ok("R3", fi.site(c), f"{key}: per-attempt deep copy")
                 continue
-            ctx.viol("R3", key, fi.site(c),
-                     f"{unparse(recv)[:60]}.{c.func.attr}(...) is called on a predicate that is shared by the automaton (not a per-attempt copy): "
-                     f"Balanced.depth / satisfied leak between match attempts and between files analysed in the same process")
+            src = term(fi, recv) + " " + " ".join(_iter_sources(fi, recv))
+            if ".transition" in src or ".item" in src or "automata" in src:
+                ctx.viol("R3", key, fi.site(c),
+                         f"{unparse(recv)[:60]}.{c.func.attr}(...) is called on a predicate that is shared by the automaton ({src[:60]}, not a per-attempt copy): "
+                         f"Balanced.depth / satisfied leak between match attempts and between files analysed in the same process")
+            else:
+                raise AnalysisError(f"{fi.site(c)}: cannot tell whether the receiver of {unparse(c)[:60]} is a per-attempt predicate")
     if not r.copies_predicates:
-        ctx.viol("R3", "Pattern.consume/no-deepcopy", r.fi.site(), "Pattern.consume does not work on deep copies of the transition predicates")
+        ctx.viol("R3", "Pattern.consume/no-deepcopy", r.shared_calls[0][1] if r.shared_calls else r.fi.site(),
+                 f"Pattern.consume calls {r.shared_calls[0][0] if r.shared_calls else 'accept'}() on the automaton's shared predicate, not on a per-pattern deep copy")
+
+
+def _iter_sources(fi: FuncInfo, expr) -> list:
+    """the iterables that bind the loop / comprehension variables occurring in expr"""
+    names = {n.id for n in ast.walk(expr) if isinstance(n, ast.Name)}
+    out = []
+    for n in fi.walk():
+        gens = [(n.target, n.iter)] if isinstance(n, ast.For) else \
+            [(g.target, g.iter) for g in n.generators] if isinstance(n, (ast.ListComp, ast.SetComp, ast.GeneratorExp, ast.DictComp)) else []
+        for tgt, it in gens:
+            if names & {x.id for x in ast.walk(tgt) if isinstance(x, ast.Name)}:
+                out.append(term(fi, it))
+    return out
 
 
 def _is_copy(prj: Project, fi: FuncInfo, v) -> bool:
@@ -330,34 +362,23 @@ def rule_R5(ctx, prj):
     ctx.rule("R5", "nondeterministic sources reachable from scan_command are exactly uuid4() and datetime.now() in "
                    "Report.__init__ (flowing to uuid / timestamp); id() is only used as a dictionary key or inside "
                    "__str__/__repr__, hash() only inside __hash__", floor=3)
-    fns = [prj.funcs[q] for q in sorted(prj.callgraph.reachable(["codelimit.commands.scan:scan_command"] + ENTRY))]
+    fns = analysis_functions(prj, ["codelimit.commands.scan:scan_command"] + ENTRY)
     for fi in fns:
         for c in fi.calls():
             nm = attr_chain(c.func) or ""
             if nm in NONDET or nm.split(".")[-1] in ("uuid4", "urandom"):
                 if fi.qual == "codelimit.common.report.Report:Report.__init__":
-                    par = c
-                    while par in fi.parents and not isinstance(par, ast.Assign):
-                        par = fi.parents[par]
-                    tgt = unparse(par.targets[0]) if isinstance(par, ast.Assign) else "?"
-                    if tgt in ("self.uuid", "self.timestamp"):
-                        ctx.ok("R5", fi.site(c), f"Report.__init__: {nm}() -> {tgt}")
+                    sinks = _sinks(fi, c)
+                    if sinks <= {"self.uuid", "self.timestamp"}:
+                        ctx.ok("R5", fi.site(c), f"Report.__init__: {nm}() -> {', '.join(sorted(sinks))}")
                     else:
-                        ctx.viol("R5", f"Report.__init__/{nm}", fi.site(c), f"{nm}() flows to {tgt}, not only to uuid/timestamp")
+                        ctx.viol("R5", f"Report.__init__/{nm}", fi.site(c), f"{nm}() flows to {', '.join(sorted(sinks - {'self.uuid', 'self.timestamp'}))}, not only to uuid/timestamp")
                 else:
                     ctx.viol("R5", f"{fi.local}/{nm}", fi.site(c), f"{nm}() is called during analysis: results differ between runs")
             if nm == "id" and len(c.args) == 1:
-                ok = fi.name in ("__str__", "__repr__")
-                par = fi.parents.get(c)
-                if isinstance(par, ast.Assign) and isinstance(par.targets[0], ast.Name):
-                    v = par.targets[0].id
-                    uses = [n for n in fi.walk() if isinstance(n, ast.Name) and n.id == v and isinstance(n.ctx, ast.Load)]
-                    if uses and all(_is_key_use(fi, u) for u in uses):
-                        ok = True
-                if isinstance(par, (ast.Subscript,)) or isinstance(par, ast.FormattedValue) and fi.name in ("__str__", "__repr__"):
-                    ok = True
-                if isinstance(par, ast.Call) and attr_chain(par.func) == "str":
-                    ok = fi.name in ("__str__", "__repr__") or "state_set_id" in fi.name
+                sinks = _sinks(fi, c)
+                ok = fi.name in ("__str__", "__repr__") or sinks <= {"key"} or \
+                    (sinks <= {"key", "str()"} and "state_set_id" in fi.name)
                 if ok:
                     ctx.ok("R5", fi.site(c), f"{fi.local}: id() used as a key / label")
                 else:
@@ -366,11 +387,75 @@ def rule_R5(ctx, prj):
                 ctx.viol("R5", f"{fi.local}/hash()", fi.site(c), "hash() of a str depends on PYTHONHASHSEED and is used outside __hash__")
 
 
+def _sinks(fi: FuncInfo, node, depth=0) -> set:
+    """where the value of `node` ends up inside fi: 'self.<attr>', 'key' (dictionary key / membership test), 'return',
+    'str()' or 'other:<construct>'; follows value-preserving wrappers (method calls on it, str(), f-strings) and locals"""
+    if depth > 6:
+        return {"other:depth"}
+    cur = node
+    while True:
+        par = fi.parents.get(cur)
+        if par is None:
+            return {"other:none"}
+        if _is_key_use(fi, cur):
+            return {"key"}
+        if isinstance(par, ast.Attribute) and par.value is cur:
+            cur = par
+            continue
+        if isinstance(par, ast.Call):
+            if par.func is cur:
+                cur = par
+                continue
+            nm = attr_chain(par.func) or ""
+            if nm == "str" and len(par.args) == 1:
+                cur = par
+                continue
+            return {"other:argument of " + (nm or "call")}
+        if isinstance(par, (ast.FormattedValue, ast.JoinedStr)):
+            cur = par
+            continue
+        if isinstance(par, ast.NamedExpr) and par.value is cur:
+            out = _uses_sinks(fi, par.target.id, depth)
+            cur = par
+            return out | _sinks(fi, par, depth + 1) if not isinstance(fi.parents.get(par), ast.Expr) else out
+        if isinstance(par, (ast.Assign, ast.AnnAssign)):
+            tgts = par.targets if isinstance(par, ast.Assign) else [par.target]
+            out = set()
+            for t in tgts:
+                if isinstance(t, ast.Name):
+                    out |= _uses_sinks(fi, t.id, depth)
+                elif isinstance(t, ast.Attribute) and isinstance(t.value, ast.Name) and t.value.id == "self":
+                    out.add("self." + t.attr)
+                elif isinstance(t, ast.Subscript) and isinstance(t.value, ast.Name):
+                    out |= _uses_sinks(fi, t.value.id, depth) or {"other:dead store"}
+                elif isinstance(t, ast.Subscript):
+                    out.add("other:store into " + unparse(t.value)[:30])
+                else:
+                    out.add("other:" + type(t).__name__)
+            return out
+        if isinstance(par, ast.Return):
+            return {"return"}
+        if isinstance(par, ast.Expr):
+            return set()
+        return {"other:" + type(par).__name__}
+
+
+def _uses_sinks(fi, name, depth):
+    out = set()
+    for n in fi.walk():
+        if isinstance(n, ast.Name) and n.id == name and isinstance(n.ctx, ast.Load):
+            out |= _sinks(fi, n, depth + 1)
+    return out
+
+
 def _is_key_use(fi: FuncInfo, u) -> bool:
     par = fi.parents.get(u)
     if isinstance(par, ast.Subscript) and par.slice is u:
         return True
     if isinstance(par, ast.Compare) and isinstance(par.ops[0], (ast.In, ast.NotIn)) and par.left is u:
+        return True
+    if isinstance(par, ast.Call) and isinstance(par.func, ast.Attribute) and par.func.attr in ("get", "setdefault", "pop") \
+            and par.args and par.args[0] is u:
         return True
     return False
 
@@ -406,7 +491,7 @@ def run(ctx, prj: Project):
     ctx.not_decided = ["determinism of the pygments lexers", "order in which os.walk lists files (reports may differ in file order by the property's wording)"]
     ctx.trust("call graph of sa.core with class-hierarchy analysis (unresolved attribute calls are resolved by method name over all project classes)",
               "pygments lexers are deterministic functions of the text")
-    fns = analysis_functions(prj)
+    fns = analysis_path(prj)
     ctx.extra["analysis_path_functions"] = len(fns)
     rule_R1(ctx, prj, fns)
     r = rule_R2(ctx, prj)
